@@ -207,6 +207,95 @@ fn fallback_table(ctx: &Ctx) {
     ctx.count("fallback_truth_table_cells", n);
     ctx.add(&ctx.evaluations, n);
     ctx.add(&ctx.nontrivial, n);
+    fallback_sequences(ctx);
+}
+
+/// A stub that provides only some *choices* of a kind (bit i of the mask = i-th choice).
+struct ChoiceStub {
+    dh: u8,
+    hash: u8,
+    cipher: u8,
+    tag: &'static str,
+}
+fn dh_idx(c: &DHChoice) -> u8 {
+    match c {
+        DHChoice::Curve25519 => 0,
+        DHChoice::Curve448 => 1,
+        _ => 2,
+    }
+}
+fn hash_idx(c: &HashChoice) -> u8 {
+    match c {
+        HashChoice::SHA256 => 0,
+        HashChoice::SHA512 => 1,
+        HashChoice::Blake2s => 2,
+        HashChoice::Blake2b => 3,
+    }
+}
+fn cipher_idx(c: &CipherChoice) -> u8 {
+    match c {
+        CipherChoice::ChaChaPoly => 0,
+        CipherChoice::AESGCM => 1,
+        _ => 2,
+    }
+}
+impl CryptoResolver for ChoiceStub {
+    fn resolve_rng(&self) -> Option<Box<dyn Random>> {
+        None
+    }
+    fn resolve_dh(&self, c: &DHChoice) -> Option<Box<dyn Dh>> {
+        (self.dh & (1 << dh_idx(c)) != 0).then(|| Box::new(TagDh(self.tag)) as Box<dyn Dh>)
+    }
+    fn resolve_hash(&self, c: &HashChoice) -> Option<Box<dyn Hash>> {
+        (self.hash & (1 << hash_idx(c)) != 0).then(|| Box::new(TagHash(self.tag)) as Box<dyn Hash>)
+    }
+    fn resolve_cipher(&self, c: &CipherChoice) -> Option<Box<dyn Cipher>> {
+        (self.cipher & (1 << cipher_idx(c)) != 0).then(|| Box::new(TagCipher(self.tag)) as Box<dyn Cipher>)
+    }
+}
+
+/// Resolution is a pure function of (member availability, choice): the answer to a query must not depend
+/// on the queries made before it on the same FallbackResolver. Every sequence of three queries of one kind
+/// over its choices, for every pair of per-choice availability masks of the two members.
+fn fallback_sequences(ctx: &Ctx) {
+    let dhs = [DHChoice::Curve25519, DHChoice::Curve448, DHChoice::P256];
+    let hs = [HashChoice::SHA256, HashChoice::SHA512, HashChoice::Blake2s, HashChoice::Blake2b];
+    let cs = [CipherChoice::ChaChaPoly, CipherChoice::AESGCM, CipherChoice::XChaChaPoly];
+    let mut n = 0u64;
+    for kind in 0..3usize {
+        let nchoices = [3usize, 4, 3][kind];
+        for ma in 0..(1u8 << nchoices) {
+            for mb in 0..(1u8 << nchoices) {
+                for seq in 0..nchoices.pow(3) {
+                    let q = [seq % nchoices, (seq / nchoices) % nchoices, seq / (nchoices * nchoices)];
+                    let mk = |m: u8, tag: &'static str| -> BoxedCryptoResolver {
+                        Box::new(ChoiceStub { dh: if kind == 0 { m } else { 0 }, hash: if kind == 1 { m } else { 0 }, cipher: if kind == 2 { m } else { 0 }, tag })
+                    };
+                    let res = FallbackResolver::new(mk(ma, "A"), mk(mb, "B"));
+                    for (step, c) in q.iter().enumerate() {
+                        let got: Option<String> = match kind {
+                            0 => res.resolve_dh(&dhs[*c]).map(|x| x.name().to_string()),
+                            1 => res.resolve_hash(&hs[*c]).map(|x| x.name().to_string()),
+                            _ => res.resolve_cipher(&cs[*c]).map(|x| x.name().to_string()),
+                        };
+                        let want = if ma & (1 << c) != 0 { Some("A".to_string()) } else if mb & (1 << c) != 0 { Some("B".to_string()) } else { None };
+                        n += 1;
+                        if got != want {
+                            ctx.violation(
+                                format!("FallbackResolver's answer depends on earlier queries on the same instance ({})", ["dh", "hash", "cipher"][kind]),
+                                format!("masks {ma:04b}/{mb:04b}, query sequence {q:?}, query {step}: got {got:?} want {want:?}"),
+                                json!({"kind": "fallback", "seq": true}),
+                            );
+                            break;
+                        }
+                    }
+                }
+            }
+        }
+    }
+    ctx.count("fallback_query_sequence_answers", n);
+    ctx.add(&ctx.evaluations, n);
+    ctx.add(&ctx.nontrivial, n);
 }
 
 pub fn check_wire(p: &Proto, mode: Mode) -> (Vec<(String, String, Config, Vec<Op>)>, u64) {
@@ -248,7 +337,7 @@ pub fn check_wire(p: &Proto, mode: Mode) -> (Vec<(String, String, Config, Vec<Op
 pub fn run(tier: Tier) -> i32 {
     let ctx = Ctx::new("C20", tier, "model_checking");
     let quick = ctx.quick();
-    ctx.set_rule("wire part: every protocol name both backends serve (25519 x {ChaChaPoly, AESGCM} x {SHA256, SHA512}; BLAKE2 / XChaChaPoly / P256 names through the fallback) x all 9 assignments of {Default, Fallback(Ring, Default), Fallback(Default, Ring)} to the two endpoints, session = handshake + transport traffic + synchronised rekeys + more traffic, stateful and stateless: identical bytes to the all-default session and every step Ok. fallback part: complete truth table of FallbackResolver over tagged stub resolvers (16 x 16 availability masks, nesting depth 2 on either side): Some iff a member provides the primitive, and the first member's");
+    ctx.set_rule("wire part: every protocol name both backends serve (25519 x {ChaChaPoly, AESGCM} x {SHA256, SHA512}; BLAKE2 / XChaChaPoly / P256 names through the fallback) x all 9 assignments of {Default, Fallback(Ring, Default), Fallback(Default, Ring)} to the two endpoints, session = handshake + transport traffic + synchronised rekeys + more traffic, stateful and stateless: identical bytes to the all-default session and every step Ok. fallback part: complete truth table of FallbackResolver over tagged stub resolvers (16 x 16 availability masks, nesting depth 2 on either side): Some iff a member provides the primitive, and the first member's; plus every sequence of three queries of one kind on the same instance over per-choice availability masks (the answer must not depend on earlier queries)");
     fallback_table(&ctx);
     let mut names: Vec<Proto> = vec![];
     for c in [CipherAlg::ChaChaPoly, CipherAlg::AesGcm] {
